@@ -1,4 +1,7 @@
+#[cfg(not(feature = "verif"))]
 use std::collections::HashMap;
+#[cfg(feature = "verif")]
+use crate::verif::HashMap;
 use std::fmt;
 use std::fs;
 use std::path::Path;
